@@ -22,6 +22,7 @@ Tie to /repo (every run):
          validator check_accepted (C14_check_accepted_sound) with the accepted keys from the independent recorder.
 """
 import concurrent.futures
+import json
 import types
 
 from harness import c14_lib as L
@@ -95,6 +96,18 @@ def run(ck):
                'restart positions); non-trivial = at least one restart occurred')
     if not ck.check_props(required=REQUIRED):
         return
+    # at most two replay files per distinct match (the totals go to the evidence)
+    seen = {}
+    raw_violation = ck.violation
+
+    def limited(what, replay, match=None, no_input=False):
+        key = json.dumps(match or {}, sort_keys=True, default=str) + ('|noinput' if no_input else '')
+        seen[key] = seen.get(key, 0) + 1
+        ck.cov['violations_by_match'] = dict(seen)
+        if seen[key] <= 2:
+            return raw_violation(what, replay, match=match, no_input=no_input)
+        return False
+    ck.violation = limited
 
     # ================================================================== 1. synthetic dictionaries
     ncases = 2400 if thorough else 640
@@ -159,7 +172,10 @@ def run(ck):
             ck.violation(orc_bad, replay, match={'kind': 'filter_stats', 'recomputed': rec is not None})
         if res['sorted'] is not None:
             keys_ = [a for a, _ in res['sorted']]
-            asc = all(not (keys_[i + 1] < keys_[i]) for i in range(len(keys_) - 1)) if len(keys_) > 1 else True
+            try:
+                asc = all(not (keys_[i + 1] < keys_[i]) for i in range(len(keys_) - 1)) if len(keys_) > 1 else True
+            except TypeError:      # incomparable keys in a result that should not exist
+                asc = False
             perm = sorted(map(repr, res['sorted'])) == sorted(repr((getattr(k, sortby), x)) for k, x in res['filter'])
             if not asc or not perm or not res.get('get_sorted_same', True):
                 ck.violation('sort_stats/get_sorted: result not ascending in %r, not a permutation of the filtered records, or get_sorted differs '
@@ -238,6 +254,107 @@ def run(ck):
         ck.violation('BasicRestartingNonMPI.prepare_next_block is neither the pinned in-place update (prepare_seq) nor the snapshot update'
                      + (' (raised %s)' % err if err else ''), {'flags': flags, 'restarts_in_a_row': cnt, 'impl': got},
                      match={'kind': 'correspondence', 'what': 'prepare_next_block'}, no_input=True)
+
+    # ================================================================== 2b. Hooks.add_to_stats / increment_stats / callbacks / return_stats
+    from pySDC.core.hooks import Hooks
+    from pySDC.core.controller import Controller
+    CBS = ['pre_setup', 'pre_run', 'pre_predict', 'pre_step', 'pre_iteration', 'pre_sweep', 'pre_comm', 'post_comm', 'post_sweep',
+           'post_iteration', 'post_step', 'post_predict', 'post_run', 'post_setup']
+
+    class _Status(object):
+        def __init__(self, d):
+            self.d = d
+
+        def get(self, key, default=None):
+            return self.d.get(key, default)
+
+    hcases = []
+    for _ in range(120 if thorough else 40):
+        hooks, scripts, pyscripts = [], [], []
+        for hi in range(rng.randint(1, 3)):
+            h = Hooks()
+            ops = []
+            pyops = []
+            for _ in range(rng.randint(1, 14)):
+                r = rng.random()
+                if r < 0.35:
+                    cb = rng.choice(CBS)
+                    kind = rng.random()
+                    if kind < 0.15:
+                        step, lit = None, 'N'
+                    elif kind < 0.3:
+                        step, lit = types.SimpleNamespace(status=_Status({})), '(Some N)'
+                    else:
+                        c = rng.randint(0, 3)
+                        step, lit = types.SimpleNamespace(status=_Status({'restarts_in_a_row': c})), '(Some (J %d))' % c
+                    getattr(h, cb)(step, 0)
+                    ops.append('ORefresh %s' % lit)
+                    pyops.append(('refresh', cb, 0 if step is None else step.status.get('restarts_in_a_row')))
+                else:
+                    kw = {}
+                    for f, vals in (('process', [0, 1]), ('time', [0.0, 0.1, 0.25]), ('level', [0, -1]), ('iter', [1, 2]),
+                                    ('type', ['niter', 'k', 'u%d' % hi]), ('num_restarts', [0, 7]), ('sweep', [1])):
+                        if rng.random() < 0.6:
+                            kw[f] = rng.choice(vals)
+                    v = rng.randint(-3, 9)
+                    klit = L.entry_lit({f: kw.get(f) for f in L.FIELDS})
+                    if r < 0.7:
+                        h.add_to_stats(value=v, **kw)
+                        ops.append('OAdd %s %s' % (klit, zlit(v)))
+                        pyops.append(('add', kw, v))
+                    else:
+                        ini = rng.choice([None, None, 0, 5])
+                        h.increment_stats(value=v, initialize=ini, **kw)
+                        ops.append('OIncr %s %s %s' % (klit, zlit(v), 'N' if ini is None else '(J %d)' % ini))
+                        pyops.append(('incr', kw, v, ini))
+            hooks.append(h)
+            scripts.append(ops)
+            pyscripts.append(pyops)
+        merged = Controller.return_stats(types.SimpleNamespace(hooks=hooks))
+        hcases.append((scripts, [list(h.return_stats().items()) for h in hooks], list(merged.items())))
+        # implementation-side oracle: replay with plain dictionary semantics (key carries the count of the latest callback)
+        exp_merged = {}
+        for h, pyops in zip(hooks, pyscripts):
+            cur, dd = 0, {}
+            for o in pyops:
+                if o[0] == 'refresh':
+                    cur = o[2]
+                else:
+                    key = Entry(**{**{f: None for f in L.FIELDS}, **o[1], 'num_restarts': cur})
+                    if o[0] == 'add':
+                        dd[key] = o[2]
+                    elif key in dd:
+                        dd[key] = dd[key] + o[2]
+                    else:
+                        dd[key] = o[3] if o[3] is not None else o[2]
+            if list(dd.items()) != list(h.return_stats().items()):
+                ck.violation('a hook dictionary is not what its calls imply (key = given fields + restart count of the latest callback; '
+                             'add overwrites, increment adds or initialises)', {'calls': [repr(o) for o in pyops], 'impl': items_repr(h.return_stats().items()),
+                                                                               'expected': items_repr(dd.items())}, match={'kind': 'hooks_api'})
+            exp_merged.update(dd)
+        if list(exp_merged.items()) != list(merged.items()):
+            ck.violation('Controller.return_stats is not the in-order union of the hook dictionaries', {'impl': items_repr(merged.items())},
+                         match={'kind': 'merge'})
+    txt = L.HEADER + 'Definition hc : list (list (list op) * list (dict Z) * dict Z) := %s.\n' % coq_list(
+        ['(%s, %s, %s)' % (coq_list([coq_list(ops) for ops in scripts]), coq_list([L.dict_lit(d) for d in per]), L.dict_lit(mg))
+         for scripts, per, mg in hcases])
+    txt += ("Eval vm_compute in map (fun '(sc, per, mg) => let hs := map run_ops sc in "
+            "(list_eqb dict_eqb (map h_stats hs) per, dict_eqb (return_stats hs) mg)) hc.\n")
+    rc, out = ck.coqc(ck.write_gen('Hooks.v', txt), timeout=600)
+    if rc != 0:
+        ck.obligation('hook scripts evaluate', False, out[-1500:])
+        ck.violation('generated hook scripts do not compile', {'log': out[-3000:]}, match={'kind': 'gen'}, no_input=True)
+        return
+    hv = parse_coq_value(eval_outputs(out)[0])
+    nb = 0
+    for (scripts, per, mg), (ok_h, ok_m) in zip(hcases, hv):
+        ck.case(key=('hooks', repr(scripts)), nontrivial=True)
+        if not (ok_h and ok_m):
+            nb += 1
+            ck.violation('Hooks callbacks/add_to_stats/increment_stats or Controller.return_stats differ from their model on a scripted call sequence',
+                         {'scripts': scripts, 'impl_per_hook': [items_repr(d) for d in per], 'impl_merged': items_repr(mg)},
+                         match={'kind': 'correspondence', 'what': 'hooks' if not ok_h else 'return_stats'}, no_input=True)
+    ck.obligation('Hooks (14 callbacks, add_to_stats, increment_stats) and Controller.return_stats: model = implementation on %d scripts' % len(hcases), nb == 0)
 
     # ================================================================== 3. real runs
     import random
